@@ -42,6 +42,7 @@ type KnownFinding struct {
 	Replay    string   `json:"replay,omitempty"`    // corpus file (relative to /verif) that demonstrates it
 	Exclusion string   `json:"exclusion,omitempty"` // generator flag that removes exactly the triggering pattern
 	Classes   []string `json:"classes,omitempty"`   // failure classes this entry accounts for (exact match)
+	Also      []string `json:"also,omitempty"`      // other properties whose generators must apply the same exclusion
 }
 
 type failureRec struct {
@@ -147,6 +148,13 @@ func LoadKnown(root, prop string) []KnownFinding {
 		}
 		if k.Property == prop {
 			out = append(out, k)
+		} else {
+			for _, a := range k.Also {
+				if a == prop {
+					k.Classes = nil // only the exclusion carries over; matching stays with the owning property
+					out = append(out, k)
+				}
+			}
 		}
 	}
 	return out
